@@ -85,6 +85,51 @@ def run(tier="quick", seed=0, repo="/repo"):
                     ok, detail = False, f"{type(e).__name__}: {str(e)[:150]}"
                 t.case(f"executemany:{style}", ("executemany", style), ok, function="fakesnow.cursor.FakeSnowflakeCursor.executemany", case={"style": style}, expected="one row per set, in order", actual=detail)
             conn.close()
+        # values that compare equal in Python but are different SQL values (1 / True / 1.0, 0 / False / 0.0), bound side by side, one after
+        # the other on a re-used cursor, and across the rows of one executemany: each must have the effect of its own literal
+        snowflake.connector.paramstyle = "pyformat"
+        LIT = lambda v: ("TRUE" if v else "FALSE") if isinstance(v, bool) else repr(v)  # noqa: E731
+        twins = [(1, True), (True, 1), (0, False), (False, 0), (1, 1.0), (1.0, 1), (0.0, False), (True, 1.0)]
+
+        def typed(rows):
+            return [tuple((type(x).__name__, x) for x in r) for r in rows]
+
+        for a, b in twins:
+            label = f"{type(a).__name__}:{a!r},{type(b).__name__}:{b!r}"
+            for mode in ("one-set", "reused-cursor", "executemany"):
+                fs = new_instance(repo)
+                conn = fs.connect("db1", "s1")
+                cur, ref = conn.cursor(), conn.cursor()
+                try:
+                    if mode == "one-set":
+                        cur.execute("select %s as a, %s as b", (a, b))
+                        got = typed(cur.fetchall())
+                        ref.execute(f"select {LIT(a)} as a, {LIT(b)} as b")
+                        want = typed(ref.fetchall())
+                    elif mode == "reused-cursor":
+                        got = []
+                        for v in (a, b, a):
+                            cur.execute("select %s as v", (v,))
+                            got += typed(cur.fetchall())
+                        want = []
+                        for v in (a, b, a):
+                            ref.execute(f"select {LIT(v)} as v")
+                            want += typed(ref.fetchall())
+                    else:
+                        cur.execute("create table tw (k int, s varchar)")
+                        cur.execute("create table tw_ref (k int, s varchar)")
+                        cur.executemany("insert into tw values (%s, %s)", [(0, a), (1, b), (2, a)])
+                        for k, v in enumerate((a, b, a)):
+                            ref.execute(f"insert into tw_ref values ({k}, {LIT(v)})")
+                        cur.execute("select k, s from tw order by k")
+                        got = typed(cur.fetchall())
+                        ref.execute("select k, s from tw_ref order by k")
+                        want = typed(ref.fetchall())
+                    ok, detail = got == want, repr(got)
+                except Exception as e:  # noqa: BLE001
+                    ok, detail, want = False, f"{type(e).__name__}: {str(e)[:150]}", "the effect of the literals"
+                t.case(f"equal-twins:{mode}:{label}", ("twins", mode, label), ok, function="fakesnow.cursor.FakeSnowflakeCursor._rewrite_with_params", case={"mode": mode, "values": [repr(a), repr(b)]}, expected=repr(want), actual=detail)
+                conn.close()
         # paramstyle is the one configured when the connection was made
         snowflake.connector.paramstyle = "pyformat"
         fs = new_instance(repo)
@@ -100,7 +145,7 @@ def run(tier="quick", seed=0, repo="/repo"):
         t.case("snapshot:pyformat->qmark:new-cursor", ("snapshot", 1), ok, function="fakesnow.cursor.FakeSnowflakeCursor._rewrite_with_params", case={"connect": "pyformat", "later": "qmark"}, expected="pyformat still in force", actual=detail)
     finally:
         snowflake.connector.paramstyle = saved
-    return t.result(bound=f"{len(STRS)} adversarial strings + {len(OTHERS)} typed values x 4 binding styles x 2 positions")
+    return t.result(bound=f"8 pairs of ==-equal values of different type x 3 binding modes; {len(STRS)} adversarial strings + {len(OTHERS)} typed values x 4 binding styles x 2 positions")
 
 
 def replay(case, repo):
